@@ -393,3 +393,6 @@ def run(ctx):
                'the printed precision of fixed-point and float values depends on the stream format state')
     ctx.borrow(c12.r3, {'C12.R3': 'C05.R8'},
                'an integer printed while the stream is still in hex mode is not the value the type defines')
+    ctx.borrow(c12.r2, {'C12.R2': 'C05.R9'},
+               'a field decodes with the divisor and range of the type object derive() hands out; a cache key that omits one '
+               'of them lets an earlier definition decide the value printed for a later one')
